@@ -101,7 +101,41 @@ func loadKnown() ([]KnownFinding, error) {
 
 // runNative executes jobs natively (go test with overlay) in the package of
 // harness dir `dir`.
+// runNative runs the jobs natively; when the test binary dies on a job (a
+// fatal error no recover() can catch) that job is marked CRASH and the rest is
+// run in a fresh process.
 func runNative(dir string, jobs []nativeJob, extraTags string) (map[string]nativeResult, error) {
+	all := map[string]nativeResult{}
+	rest := jobs
+	for attempt := 0; attempt < 6 && len(rest) > 0; attempt++ {
+		res, err := runNativeOnce(dir, rest, extraTags)
+		for k, v := range res {
+			all[k] = v
+		}
+		if err == nil {
+			return all, nil
+		}
+		// find the first job without a result: it killed the process
+		idx := -1
+		for i, j := range rest {
+			if _, ok := res[j.Tag]; !ok {
+				idx = i
+				break
+			}
+		}
+		if idx < 0 {
+			return all, err
+		}
+		if !strings.Contains(err.Error(), "native run failed") {
+			return all, err
+		}
+		all[rest[idx].Tag] = nativeResult{Tag: rest[idx].Tag, Status: "CRASH", Msg: tail(err.Error(), 400), Fails: []string{"no-panic"}}
+		rest = rest[idx+1:]
+	}
+	return all, nil
+}
+
+func runNativeOnce(dir string, jobs []nativeJob, extraTags string) (map[string]nativeResult, error) {
 	if len(jobs) == 0 {
 		return map[string]nativeResult{}, nil
 	}
@@ -371,7 +405,7 @@ func cmdCheck(args []string) int {
 				if c.f.Kind == "PANIC" {
 					want = "no-panic"
 				}
-				if contains(nr.Fails, want) {
+				if contains(nr.Fails, want) || nr.Status == "CRASH" {
 					violations++
 					violationLines = append(violationLines, writeReplay(id, row, params, c.f, c.f.Msg))
 				} else if row.ModelLevel && c.f.Kind == "ASSERT" {
